@@ -25,6 +25,8 @@ CONSTANTS
   Weak_RejectSendersIgnored = FALSE
   Weak_DupOverwrites = FALSE
   Weak_RejectNotBlacklisted = FALSE
+  Weak_FormatNotBlacklisted = FALSE
+  Weak_NoSyncerLevelCheck = FALSE
 INIT Init
 NEXT Next
 INVARIANTS TrustedOnly VerifiedBeforeDone InOrder AsRecorded RefetchHonoured NeverReused NoNilChunk PoolClean BlacklistExact ReturnedIsApplied OutcomeShape
